@@ -22,6 +22,9 @@ the compiled crate on every run.  `Inv` is exactly what `from_raw_parts` asserts
 the operation list (`run_refines`, `Fixed.run_refines`).  `abs` = the live elements oldest
 first.  Only property theorems and non-vacuity examples live in this file.
 -/
+set_option linter.unusedSectionVars false
+set_option linter.unusedSimpArgs false
+
 namespace Dasp.Props.C06
 open Dasp.Ring
 
@@ -512,6 +515,23 @@ theorem slice_checks_pass (b : Bounded α) (h : b.Inv) (op : BOp α) :
         rcases hp with rfl | rfl <;> simp <;> omega
   cases op <;> simp only [Bounded.stepChecks] <;> first | exact this | (intro p hp; cases hp)
 
+/-- the `&mut` references handed out by `slices_mut`/`iter_mut` point into the backing slice, at
+    slots of live elements only -/
+theorem mutPos_in_bounds (b : Bounded α) (h : b.Inv) :
+    ∀ p ∈ b.mutPos.1 ++ b.mutPos.2, p < b.data.length := by
+  rw [mutPos_slots b h]
+  intro p hp
+  simp only [List.mem_map] at hp
+  obtain ⟨i, _, rfl⟩ := hp
+  exact Nat.mod_lt _ (by have := h.1; unfold Bounded.maxLen at *; omega)
+
+/-- along every history from a valid state, every unchecked access of every next call is in bounds
+    and every checked slice range passes -/
+theorem run_accesses_in_bounds (ops : List (BOp α)) (op : BOp α) (b : Bounded α) (h : b.Inv) :
+    (∀ i ∈ (b.run ops).1.stepAcc op, i < (b.run ops).1.data.length) ∧
+    (∀ p ∈ (b.run ops).1.stepChecks op, p.1 ≤ p.2) :=
+  ⟨accesses_in_bounds _ (run_refines ops b h).1 op, slice_checks_pass _ (run_refines ops b h).1 op⟩
+
 /-- *"…or exposes a slot that holds no live element"*: whatever an operation returns comes from
     the ideal queue's content alone (`step_refines`), and reads never reach a dead slot:
     `get i` beyond `len` is `none`, `Index` panics -/
@@ -599,6 +619,20 @@ theorem push_newest (f : Fixed α) (x : α) (h : f.Inv) : (f.push x).1.abs[f.len
   have h3 : f.abs.tail.length = f.len - 1 := by simp [h1]
   rw [List.getElem?_append_right (by omega), h3]
   simp
+
+/-- *"each push returns the element at index 0"*, literally: what `push` returns is what `get(0)`
+    (= `rb[0]`) returned just before -/
+theorem push_returns_index0 (f : Fixed α) (x : α) (h : f.Inv) : (f.push x).2 = f.get 0 := by
+  unfold Fixed.Inv Fixed.len at h
+  simp [Fixed.push, Fixed.get, Fixed.wrapped, Fixed.len, Nat.mod_eq_of_lt h]
+
+/-- *"…and makes the pushed element the newest at index N-1"*, literally: `get(N-1)` after the push -/
+theorem push_index_last (f : Fixed α) (x : α) (h : f.Inv) : (f.push x).1.get (f.len - 1) = x := by
+  have h1 := get_abs (f.push x).1 (push_inv f x h) (f.len - 1)
+  have h2 := push_newest f x h
+  have h3 := len_pos f h
+  rw [push_len, Nat.mod_eq_of_lt (by omega), h2] at h1
+  exact Option.some.inj h1
 
 theorem getMutSet_refines (f : Fixed α) (i : Nat) (x : α) (h : f.Inv) :
     (f.getMutSet i x).1.Inv ∧ (f.getMutSet i x).1.len = f.len ∧ (f.getMutSet i x).1.first = f.first ∧
